@@ -246,7 +246,10 @@ func (m *runtimeContextManager) ReleaseMem(memAmount uint64) {
 		if memAmount <= m.usedResources.Memory {
 			m.usedResources.Memory -= memAmount
 		} else {
-			panic("Too much mem released")
+			// More is released than this context has accounted for (e.g. memory
+			// required in an enclosing context and released in this one): the
+			// counter never goes below zero, and the host must not crash.
+			m.usedResources.Memory = 0
 		}
 	}
 }
